@@ -1,5 +1,6 @@
 """Property -> rule functions."""
 import e3_io
+import e1_layout
 
 
 def c07(F, R):
@@ -42,7 +43,21 @@ def c10(F, R):
     e3_io.window_rules(F, R)
 
 
+def c04(F, R):
+    R.explain("C04: every layout constant the library computes (ALIGN, SIZE, MIN_SIZE, DATA_OFFSET, DATA_MIN_SIZES, LAST_FIELD_OFFSET, "
+              "container DATA_OFFSET/OFFSET_SIZE) compared with rustc's layout_of and with the C layout rule evaluated independently "
+              "from the declared field lists, for every corpus type; exact per type, grammar-bounded over programs.")
+    e1_layout.layout_rules(F, R)
+
+
+def c17(F, R):
+    R.explain("C17: every corpus type implementing Portable has ALIGN 1 and no padding; Portable impls require Portable parameters.")
+    e1_layout.portable_rules(F, R)
+
+
 PROPS = {
+    "C04": [c04],
+    "C17": [c17],
     "C07": [c07],
     "C08": [c08],
     "C09": [c09],
